@@ -15,3 +15,4 @@ func verifIsHelloVerifyRequest(msg handshakeMessage) bool { return false }
 func verifDriverWrite(c *Conn, data []byte)  {}
 func verifDriverFlush(c *Conn) (int, error) { return 0, nil }
 func verifDriverTimeout() error              { return nil }
+func verifDriverWaiting(c *Conn)               {}
